@@ -147,7 +147,7 @@ Print Assumptions reread_day_ok_on.
 Theorem print_reads_back_log_on :
   forall (NM : Num) (Q : T NM -> Prop), FmtStableOn NM Q ->
   forall (c : rconfig) (data : bytes) (L : list (lognode NM)),
-    forallb safe_tok (rc_date c) = true ->
+    forallb safe_tok (rc_date c) = true -> stable_layout (rc_date c) = true ->
     read_log NM (rc_date c) data = Some L ->
     days_in NM Q L ->
     Forall (fun d => Forall (fun mp => documented_note mp = true) (notes_of NM d)) L ->
@@ -161,7 +161,7 @@ Print Assumptions print_reads_back_log_on.
 Theorem run_print_twice_log_on :
   forall (NM : Num) (Q : T NM -> Prop), FmtStableOn NM Q ->
   forall (w1 w2 : world) (op : options) (c : rconfig) (data : bytes) (toks : list ltoken) (L : list (lognode NM)),
-    rc_date c = toks ->
+    rc_date c = toks -> stable_layout toks = true ->
     print_setting w1 op data toks -> read_log NM toks data = Some L ->
     days_in NM Q (filter (in_period NM op) L) ->
     Forall (fun d => Forall (fun mp => documented_note mp = true) (notes_of NM d)) (filter (in_period NM op) L) ->
@@ -220,7 +220,7 @@ Print Assumptions B64_print_idempotent.
     amounts again, so the statement applies to them in turn. *)
 Theorem B64_print_reads_back_log :
   forall (c : rconfig) (data : bytes) (L : list (lognode B64)),
-    forallb safe_tok (rc_date c) = true ->
+    forallb safe_tok (rc_date c) = true -> stable_layout (rc_date c) = true ->
     read_log B64 (rc_date c) data = Some L ->
     Forall (fun d => Forall (fun mp => documented_note mp = true) (notes_of B64 d)) L ->
     Forall (fun d => Forall (fun l => (lengthN l < max_token)%N) (day_lines B64 c d)) L ->
@@ -233,7 +233,7 @@ Print Assumptions B64_print_reads_back_log.
 (** "Printing the printed log reproduces it byte for byte", every readable log *)
 Theorem B64_print_idempotent_log :
   forall (c : rconfig) (data : bytes) (L L' : list (lognode B64)),
-    forallb safe_tok (rc_date c) = true ->
+    forallb safe_tok (rc_date c) = true -> stable_layout (rc_date c) = true ->
     read_log B64 (rc_date c) data = Some L ->
     Forall (fun d => Forall (fun mp => documented_note mp = true) (notes_of B64 d)) L ->
     Forall (fun d => Forall (fun l => (lengthN l < max_token)%N) (day_lines B64 c d)) L ->
@@ -246,7 +246,7 @@ Print Assumptions B64_print_idempotent_log.
     [run_print_twice_log] (Props/C14.v) minus the number law *)
 Theorem B64_run_print_twice_log :
   forall (w1 w2 : world) (op : options) (c : rconfig) (data : bytes) (toks : list ltoken) (L : list (lognode B64)),
-    rc_date c = toks ->
+    rc_date c = toks -> stable_layout toks = true ->
     print_setting w1 op data toks -> read_log B64 toks data = Some L ->
     Forall (fun d => Forall (fun mp => documented_note mp = true) (notes_of B64 d)) (filter (in_period B64 op) L) ->
     Forall (fun d => Forall (fun l => (lengthN l < max_token)%N) (day_lines B64 c d)) (filter (in_period B64 op) L) ->
